@@ -76,6 +76,7 @@ T = [
     ("minmax_chains makes the result variable a group variable", "C02", ["minmax_chains"], "{ sel(P,V) } :- skill(P,V).\n:~ grp(P); X = #max { V : sel(P,V) }; skill(P,X). [X@1,P]\n", [["grp", 1], ["skill", 2]], [["sel", 2]], [["grp(b)", "skill(b,3)"]], {"kind": "set", "voc": "out", "cost": True}, ["equiv"], {}),
     ("min/max results behind a double negation", "C03", ["minmax_chains"], "{ sel(P,V) } :- skill(P,V).\nbest(P,X) :- grp(P); X = #max { V: sel(P,V) }.\n:~ not not best(P,X); skill(P,X). [X@1,P]\n", [["grp", 1], ["skill", 2]], [["sel", 2]], None, None, ["c03"], {}),
     ("sum_chains leaves aggregates alone in statements that use the variable __PREV", "C07", ["sum_chains"], "1 >= { shift(G0,P): len(P) } :- day(G0).\na(__PREV) :- __PREV = #sum { N,f(G0): shift(G0,N); B,g(P): pl(P,B) }.\n", [["day", 1], ["len", 1], ["pl", 2]], [["a", 1], ["shift", 2]], [["day(1)", "len(1)", "len(2)", "pl(1,1)"]], {"kind": "set", "voc": "inout", "cost": False}, ["equiv", "c07"], {}),
+    ("minmax_chains keeps the rule when a moved literal uses a variable bound by a literal that stays", "C12", ["minmax_chains"], "task(T) :- t(T).\n{ sel(L,V) } :- skill(L,V).\nlvl((0..3)).\nbest(L,X) :- lvl(T); X = #max { V: sel(L,V) }; L = #sum { T,T: task(T) }.\n", [["skill", 2], ["t", 1]], [["best", 2], ["lvl", 1], ["sel", 2], ["task", 1]], [["skill(2,1)", "t(2)"]], BIJ, ["equiv"], {}),
 ]
 
 
